@@ -5,7 +5,8 @@ Every family is a complete, deterministic enumeration of a stated set (never a s
   cp      every Unicode scalar value as a one-character string            (1 112 064 values)
   str3    every string of length 0..3 over a 14-character hostile alphabet    (2 955 values)
   ints    every int in [-4096, 4096], +-(2^k + d) for k = 0..4200, d in {-1,0,1},
-          +-10^k for k = 0..4299 (CPython's str() digit limit)              (~42 000 values)
+          +-10^k for k = 0..4299 (CPython's str() digit limit), +-(m 10^k + d) next to the
+          largest printable powers of ten                                   (~44 000 values)
   floats  every binary64 whose mantissa is one of 16 top-nibble patterns (plus all-ones and lowest bit)
           for every sign and every one of the 2048 exponents                 (73 728 values)
   lens    'q' * n for every n in 0..4500 and around every multiple of 64 up to 2^17 (md5 block
@@ -51,7 +52,8 @@ def family(name: str, chunk: int):
             return [s * ((1 << k) + d) for k in range(0, 4201) for d in (-1, 0, 1) for s in (1, -1)]
         if chunk == 2:
             return [10**k for k in range(0, 4300)]
-        return [-(10**k) for k in range(0, 4299)]
+        # negative powers of ten, and values just beside large powers of ten (block-wise / divmod printing of huge ints)
+        return [-(10**k) for k in range(0, 4299)] + [sg * (m * 10**k + d) for k in range(3890, 4298, 3) for m in (1, 3) for d in (-1, 1, 12345) for sg in (1, -1)]
     if name == "floats":
         mant = [m << 48 for m in range(16)] + [(1 << 52) - 1, 1]
         out = []
